@@ -1243,6 +1243,36 @@ pub fn c14(tier: &str) -> Vec<Family> {
             sc.push(scn(format!("partial_drain/combo{}/v{}/take0", ci, v), &spec, vec![pe(0, 2, v)]));
         }
     }
+    // Single-replier requestors (plain, mapped, filtered), also towards a
+    // replier that is busy or whose mailbox is full.
+    for c in [1usize, 2] {
+        let a = NodeSpec::new("A", c)
+            .script(1, vec![
+                Op::UniQuery { port: 0, tag: 4, val: Val::In },
+                Op::UniQuery { port: 1, tag: 4, val: Val::In },
+                Op::UniQuery { port: 2, tag: 4, val: Val::In },
+                Op::UniQuery { port: 3, tag: 4, val: Val::In },
+            ])
+            .uni(to(1))
+            .uni(tom(2, Mode::Map(5)))
+            .uni(tom(1, Mode::Filter(0)))
+            .uni(tom(2, Mode::Filter(1)));
+        let b = NodeSpec::new("B", c).script(9, vec![sendp(0, 8, 1)]).out(vec![to(2)]);
+        let cc = NodeSpec::new("C", c);
+        let spec = Arc::new(BenchSpec::new(vec![a, b, cc]));
+        for v in [0i64, 1] {
+            sc.push(scn(format!("uni_requestor/cap{}/v{}", c, v), &spec, vec![pe(1, 9, 0), pe(0, 1, v)]));
+            sc.push(scn(
+                format!("uni_requestor/cap{}/v{}/timed", c, v),
+                &spec,
+                vec![
+                    Cmd::Sched { node: 1, kind: SKind::Once, when: When::Rel(1), tag: 9, val: 0, slot: 0 },
+                    Cmd::Sched { node: 0, kind: SKind::Once, when: When::Rel(1), tag: 1, val: v, slot: 0 },
+                    Cmd::Step,
+                ],
+            ));
+        }
+    }
     let mut fams = vec![Family::new(
         "query_replies",
         &["replies", "replies_early", "delivery_dup", "delivery_invented", "delivery_lost", "delivery_value"],
